@@ -26,3 +26,10 @@ def _args(run, tier, n, cases):
 
 
 PROP["harness_args"] = _args
+
+
+MANIFEST = {
+    "text": "Coq theorems over ALL argument lists. For I/U items, every presentation (any Go integer type, slices, decimal strings of any magnitude, mixed) of numbers zs yields values map (clamp lo hi) zs in order; clamp is proved nearest-bound and bridged to the clampInt64/clampUint64 regenerated from the source. For floats, clampF4 is proved on an ordered abstraction and is the identity on float32 and integer images. All documented refusals are proved; the cached clean flag equals the recursive answer at any depth; an errored item is never Equal, is refused by the message gate, Build and all four send calls, and nothing errored reaches the wire. The model is tied by a differential over all public constructors (incl. live send calls on a selected connection with a recording peer).",
+    "note": "Premise length < 2^31 on the count (C16_count_refuted; the real code was repaired by fix commit 5f82ab6). ParseFloat is a parameter of the model; ParseInt/ParseUint are modelled and compared. Per-width bounds are computed inline outside the translator subset and tied by differential only. Float order/conversions are modelled on bit patterns (amd64 NaN behaviour). Only the hsmsss send path is exercised live; external Item implementations and typed-nil pointers are outside the quantifier.",
+    "technique": "Rocq/Coq proof (structural induction over argument lists and item trees) + translator bridge + extracted-model differential through the public API incl. live send calls",
+}
